@@ -249,6 +249,9 @@ pub fn cell(spec: &Value) -> Value {
     if spec["family"] == "interval" {
         return interval_cell(&srv, &cfg, spec);
     }
+    if spec["family"] == "special" {
+        return special_cell(&srv, &cfg, spec);
+    }
     let tier = if spec["tier"] == "thorough" { Tier::Thorough } else { Tier::Quick };
     let lists = opt_lists(tier);
     let lo = spec["lo"].as_u64().unwrap() as usize;
@@ -299,6 +302,130 @@ pub fn cell(spec: &Value) -> Value {
     }
     for o in outcomes {
         c.trace_hashes.insert(o);
+    }
+    c.trim_violations(3);
+    c.to_json()
+}
+
+/// Requests whose answer depends on something other than the option list: the SIZE of the file on disk (4 GiB and more,
+/// sparse files), the KIND of directory entry (a symbolic link inside the send directory to a file inside it), and the
+/// spelling of the transfer mode (RFC 1350: case-insensitive).
+fn special_cell(srv: &Srv, cfg: &SrvCfg, spec: &Value) -> Value {
+    let mut c = Counters::default();
+    let mut viol: Vec<(String, String)> = vec![];
+    let tz = |v: &str| vec![("tsize".to_string(), v.to_string())];
+    // (i) big sparse files: only the OACK is read, then the transfer is aborted
+    for size in [(1u64 << 32) - 1, 1u64 << 32, (1u64 << 32) + 5, 3 * (1u64 << 32) + 12345] {
+        let name = format!("big_{size}");
+        let p = format!("{}/{}", srv.send_dir, name);
+        let made = std::fs::File::create(&p).and_then(|f| f.set_len(size));
+        if made.is_err() {
+            c.machinery_errors.push(format!("cannot create a sparse file of {size} bytes in {}", srv.send_dir));
+            continue;
+        }
+        for extra in [false, true] {
+            let mut opts = tz("0");
+            if extra {
+                opts.insert(0, ("blksize".to_string(), "1024".to_string()));
+            }
+            let mut cl = Client::new(srv.addr);
+            cl.to_server(&rc::request(false, name.as_bytes(), &opts));
+            let first = reply_or_quiet(srv, &mut cl);
+            c.executions += 1;
+            c.states += 1;
+            c.transitions += 2;
+            match first.as_ref().map(|(b, _)| rc::decode(b)) {
+                Some(Ok(RPacket::Oack(o))) => {
+                    c.nontrivial += 1;
+                    let o = parse_opts(&o);
+                    let got = o.iter().find(|(n, _)| n == "tsize").map(|(_, v)| v.clone());
+                    if got.as_deref() != Some(size.to_string().as_str()) {
+                        viol.push(("oack-tsize".into(), format!("RRQ of a {size}-byte file with {:?}: OACK tsize = {:?}, the file's true size is {size}", opts, got)));
+                    }
+                    cl.to_peer(&rc::ack(0));
+                    let _ = cl.recv_wait(Duration::from_millis(500));
+                    cl.to_peer_guarded(&rc::error(0, "only the OACK was wanted"));
+                }
+                other => viol.push(("oack-missing".into(), format!("RRQ of a {size}-byte file with {:?}: first reply {:?} instead of an OACK", opts, other.map(|r| r.map(|p| format!("{:?}", p).chars().take(40).collect::<String>()))))),
+            }
+            quiesce();
+        }
+        let _ = std::fs::remove_file(&p);
+    }
+    // (ii) a symbolic link inside the send directory to a regular file inside it
+    {
+        let real = file_content(2500);
+        let _ = std::fs::write(format!("{}/real.bin", srv.send_dir), &real);
+        let lp = format!("{}/link.bin", srv.send_dir);
+        let _ = std::fs::remove_file(&lp);
+        if std::os::unix::fs::symlink("real.bin", &lp).is_ok() {
+            let r = download(srv, b"link.bin", &tz("0"));
+            c.executions += 1;
+            c.states += 1;
+            c.transitions += r.block_lens.len() as u64 + 1;
+            c.nontrivial += 1;
+            let got = r.oack.as_ref().and_then(|o| o.iter().find(|(n, _)| n == "tsize").map(|(_, v)| v.clone()));
+            if got.as_deref() != Some("2500") {
+                viol.push(("oack-tsize".into(), format!("RRQ of a symbolic link to a 2500-byte file with tsize=0: OACK tsize = {:?}", got)));
+            }
+            if !r.completed || r.data != real {
+                viol.push(("transfer-content".into(), format!("RRQ of a symbolic link to a 2500-byte file: completed={} received {} bytes", r.completed, r.data.len())));
+            }
+            let _ = std::fs::remove_file(&lp);
+        }
+    }
+    // (iii) spellings of the transfer mode: the whole judgement of the option grid applies unchanged
+    let mut seq = 900_000usize;
+    for mode in ["OCTET", "Octet", "oCtEt"] {
+        rc::set_mode(mode);
+        for write in [false, true] {
+            for opts in [vec![], vec![("blksize".to_string(), "8".to_string())], vec![("TSIZE".to_string(), "0".to_string()), ("windowsize".to_string(), "2".to_string())]] {
+                seq += 1;
+                let (_, v, transferred) = judge(srv, write, 1025, &opts, seq);
+                c.executions += 1;
+                c.states += 1;
+                c.transitions += 1;
+                if transferred {
+                    c.nontrivial += 1;
+                }
+                for (clause, what) in v {
+                    viol.push((clause, format!("[mode spelled {mode:?}] {what}")));
+                }
+            }
+        }
+        // refusals do not depend on the spelling either
+        let r = download(srv, b"no_such_file", &[]);
+        c.executions += 1;
+        c.states += 1;
+        if r.error.as_ref().map(|e| e.0) != Some(1) {
+            viol.push(("mode-spelling-refusal".into(), format!("[mode spelled {mode:?}] RRQ for a missing file: first reply {} error {:?} instead of ERROR 1", r.first, r.error)));
+        }
+    }
+    for mode in ["NETASCII", "NetAscii", "netascii"] {
+        // (no statement about netascii translation: only the kind of the first reply is judged)
+        rc::set_mode(mode);
+        let mut cl = Client::new(srv.addr);
+        cl.to_server(&rc::request(false, b"f1025", &[("blksize".to_string(), "8".to_string())]));
+        let first = reply_or_quiet(srv, &mut cl);
+        c.executions += 1;
+        c.states += 1;
+        if !matches!(first.as_ref().map(|(b, _)| rc::decode(b)), Some(Ok(RPacket::Oack(_)))) {
+            viol.push(("oack-missing".into(), format!("[mode spelled {mode:?}] RRQ with blksize=8: first reply {} instead of an OACK", first.as_ref().map(|(b, _)| rc::describe(b)).unwrap_or("none".into()))));
+        } else {
+            cl.to_peer(&rc::ack(0));
+            let _ = cl.recv_wait(Duration::from_millis(300));
+        }
+        cl.to_peer_guarded(&rc::error(0, "enough"));
+        quiesce();
+    }
+    rc::set_mode("octet");
+    c.trace_hashes.insert(fnv64(format!("special{}", cfg.single).as_bytes()));
+    c.samples.push(json!({"srv": cfg.brief(), "family": "file sizes of 4 GiB and more (sparse), symbolic link, mode spellings"}));
+    for (clause, what) in viol {
+        c.violations.push(Violation { property: "C09".into(), clause, facts: facts(&[("single", json!(cfg.single))]), what: format!("[{}] {}", cfg.brief(), what), replay: json!({"engine": "e2_c09", "srv": cfg.to_json(), "special": true, "spec": spec}), weight: 5 });
+    }
+    if !quiesce() {
+        c.machinery_errors.push("server not quiescent at the end of the C09 special cell".into());
     }
     c.trim_violations(3);
     c.to_json()
@@ -396,6 +523,9 @@ pub fn check(tier: Tier) -> Outcome {
         }
         // an interval above the 5 s default, with a duplicate ACK shortly before it elapses
         cells.push(json!({"srv": s.to_json(), "family": "interval", "timeout": 6, "write": false, "dup_ack_before_timeout": true}));
+        // ... and in plain silence (the interval must be neither shorter nor longer; both socket kinds implement the wait)
+        cells.push(json!({"srv": s.to_json(), "family": "interval", "timeout": 6, "write": false}));
+        cells.push(json!({"srv": s.to_json(), "family": "special"}));
         for write in [false, true] {
             let mut lo = 0;
             while lo < nlists {
@@ -408,7 +538,7 @@ pub fn check(tier: Tier) -> Outcome {
     let res = run_cells("c09", cells, &crate::pool_opts(tier));
     let mut out = Outcome::new("C09", "model_checking");
     out.absorb(res, n);
-    out.rule = format!("{nlists} option lists: every ordered selection of 1..4 distinct options ({}), plus upper/mixed-case names, an unknown option at every position, duplicated options; x {{RRQ, WRQ}} x {{multi-port, single-port}} x file lengths {{0, 511, 512, 1025}} (70000 with large block sizes); every accepted request is carried to its end by a reference client that follows the acknowledged values. Oracle: reference negotiator (OACK iff a recognised honourable option was requested; names subset; blksize/timeout/windowsize <= requested; tsize = true size / echo; never timeout 0, windowsize 0 or > 65535, blksize outside 8..65464) and transfer shape (non-final DATA length = acknowledged blksize, nothing beyond the acknowledged window before its ACK, upload ACKs per window, byte identity). The retransmission interval is the one wall-clock clause: measured with a strict lower and lenient upper bound for timeout {}. non-trivial = requests that completed a transfer. states = requests, transitions = requests.", if tier == Tier::Quick { "nominal values for every order; every boundary value of each option alone and in ordered pairs" } else { "full cross product of boundary values" }, if tier == Tier::Quick { "1 s" } else { "1, 2, 3 s" });
+    out.rule = format!("{nlists} option lists: every ordered selection of 1..4 distinct options ({}), plus upper/mixed-case names, an unknown option at every position, duplicated options; x {{RRQ, WRQ}} x {{multi-port, single-port}} x file lengths {{0, 511, 512, 1025}} (70000 with large block sizes); every accepted request is carried to its end by a reference client that follows the acknowledged values. Oracle: reference negotiator (OACK iff a recognised honourable option was requested; names subset; blksize/timeout/windowsize <= requested; tsize = true size / echo; never timeout 0, windowsize 0 or > 65535, blksize outside 8..65464) and transfer shape (non-final DATA length = acknowledged blksize, nothing beyond the acknowledged window before its ACK, upload ACKs per window, byte identity). The retransmission interval is the one wall-clock clause: measured with a strict lower and lenient upper bound for timeout {} and 6 s (above the default). PLUS requests whose answer depends on the file rather than on the option list: sparse files of 2^32-1, 2^32, 2^32+5 and 3*2^32+12345 bytes (tsize in the OACK), a symbolic link inside the send directory, and the option grid's judgement under the mode spellings OCTET / Octet / oCtEt (first reply kind also for netascii spellings). non-trivial = requests that completed a transfer. states = requests, transitions = requests.", if tier == Tier::Quick { "nominal values for every order; every boundary value of each option alone and in ordered pairs" } else { "full cross product of boundary values" }, if tier == Tier::Quick { "1 s" } else { "1, 2, 3 s" });
     out.assumptions = vec!["values beyond 2^16 and non-numeric values belong to C05/C10".into(), "the wall-clock clause tolerates +1.5 s of scheduling noise upwards, 20 ms downwards".into()];
     out
 }
